@@ -302,6 +302,16 @@ def d_c07_redos():
         assert time.time() - t < 2, (p, time.time() - t)
 
 
+def d_c19_mixed_contains():
+    import bs4
+    import soupsieve as sv
+    """:-soup-contains and :-soup-contains-own in one compound selector shared one cached text (C19-R3 table)."""
+    s = bs4.BeautifulSoup('<div><p>ab<span>cd</span></p></div>', 'html.parser')
+    assert len(sv.select('p:-soup-contains("ab"):-soup-contains-own("ab")', s)) == 1
+    assert len(sv.select('p:-soup-contains-own("ab"):-soup-contains("cd")', s)) == 1
+    assert sv.select('p:-soup-contains-own("cd"):-soup-contains("cd")', s) == []
+
+
 DEMOS = {k[2:]: v for k, v in list(globals().items()) if k.startswith('d_')}
 
 if __name__ == '__main__':
